@@ -293,7 +293,7 @@ class World:
             h(interp, k, node)
 
     def key_term(self, interp, d, key, node):
-        if d.key_kind == "str":
+        if getattr(d, "key_kind", None) == "str":
             if not is_strlike(key):
                 interp.unsupported("non-string key for symbolic string-keyed dict", node)
             return zs(key)
@@ -330,6 +330,8 @@ class World:
         return interp.fresh_str("repr")
 
     def opaque_str(self, interp, v, node):
+        if isinstance(v, SElem):
+            return SStr(z3.Function("repr_of_" + v.sort, z3.IntSort(), z3.StringSort())(v.z))
         return interp.fresh_str("str")
 
     def builtin_eq(self, interp, a, b, node):
